@@ -12,8 +12,9 @@
 (*   - Verify is FALSE for a share or id that is 0 mod q, and FALSE as soon as a partial sum   *)
 (*     V_0 + id V_1 + .. + id^j V_j is the neutral element                                      *)
 (* Dealings in which this happens are called Degenerate; at 256 bits they have probability     *)
-(* about n/q, at toy size they are frequent. The property invariants quantify over the rest    *)
-(* and the exact behaviour on degenerate ones is part of the conformance relation (Explains..).*)
+(* about n/q, at toy size they are frequent. "A dealt share verifies" is claimed for the rest; *)
+(* the exact behaviour on degenerate ones is part of the conformance relation (the trace       *)
+(* module demands result = operator for every call).                                           *)
 (*                                                                                             *)
 (* Zq.tla supplies the textbook algebra (Horner evaluation Eval, Lagrange interpolation        *)
 (* Interp); the invariants state that the code-shaped operators agree with it.                 *)
@@ -183,24 +184,26 @@ InterpAtZeroFrom(xs, ss, i) ==
   IF i > Len(xs) THEN 0 ELSE Add(Mul(ss[i] % Q, BasisAtZero(xs, i, 1)), InterpAtZeroFrom(xs, ss, i + 1))
 InterpAtZero(xs, ss) == InterpAtZeroFrom(xs, ss, 1)
 
-\* every subset of at least t+1 shares reconstructs exactly the secret; the code-shaped Lagrange loop is the
-\* textbook interpolation at 0; fewer than t shares are refused, t shares give the value at 0 of the polynomial of
-\* degree < t through them (which is unrelated to the secret: Secrecy below)
+\* every subset of at least t+1 shares reconstructs exactly the secret, fewer never do: fewer than t shares are refused,
+\* and t shares give the value at 0 of the polynomial g of degree < t through them, which is NOT the secret because
+\* f - g = a_t * prod (x - x_i) has a non-zero value at 0 (a_t # 0: degree exactly t; no id is 0 mod q).
+\* The code-shaped Lagrange loop is the textbook interpolation at 0.
 Reconstruction(d, c) == c.op = "R" =>
    LET xs == Pick(d.ids, c.idx)
        ss == Pick(d.shares, c.idx)
    IN /\ Len(c.idx) >= d.t + 1 => c.res = Rq(d.secret)
+      /\ Len(c.idx) <= d.t => c.res # Rq(d.secret)
       /\ Len(c.idx) < d.t => c.res = -1
       /\ Len(c.idx) >= d.t => c.res = InterpAtZero(xs, ss)
 
 CallOK(d, c) == Sound(c) /\ OwnVerifies(d, c) /\ OtherIdFails(d, c) /\ AlteredShareFails(d, c)
                 /\ AlteredCommitFails(d, c) /\ ShapeFails(d, c) /\ Reconstruction(d, c)
 
-\* --- "fewer than t+1 never do", information-theoretic reading ------------------
-\* For every set T of at most t admissible ids, the map  polynomial |-> (f(0), f restricted to T)  from the
-\* q^(t+1) polynomials of degree <= t is onto Z_q x Z_q^T: whatever values t shares have, every secret is
-\* consistent with them (with exactly q^(t-|T|) polynomials each). At toy size the degree < t interpolation of t
-\* shares hits the secret for about 1/q of the polynomials, so "the value differs" is demanded only at real size.
+\* --- "fewer than t+1 never do", information-theoretic reading -----------------
+\* Reconstruction above says that the library's ReConstruct never yields the secret from at most t shares. Secrecy
+\* says that nobody can: for every set T of at most t admissible ids, the map  polynomial |-> (f(0), f restricted to T)
+\* from the q^(t+1) polynomials of degree <= t is onto Z_q x Z_q^T, so whatever values t shares have, every secret is
+\* consistent with them (with exactly q^(t-|T|) polynomials each).
 RECURSIVE IntPow(_, _)
 IntPow(b, e) == IF e = 0 THEN 1 ELSE b * IntPow(b, e - 1)
 AllCoefs(thr) == [1..(thr + 1) -> Zq]
